@@ -79,7 +79,9 @@ class StarFinderBase(metaclass=abc.ABCMeta):
                 footprint = kernel.mask.astype(bool)
         else:
             # define a local circular footprint for the peak finder
-            idx = np.arange(-min_separation, min_separation + 1)
+            # pixel offsets are integers, also for a fractional separation
+            size = int(min_separation)
+            idx = np.arange(-size, size + 1)
             xx, yy = np.meshgrid(idx, idx)
             footprint = np.array((xx**2 + yy**2) <= min_separation**2,
                                  dtype=int)
